@@ -158,17 +158,27 @@ def family(tier, ks):
         if (not ab and ac != bc) or (not ab and not ac and not bc) or (ab and not bc and not ac):
             triples.append((a, b, c))
     rnd.shuffle(triples)
-    quads = []
+    # four tasks: one task, then a stage of three of which the first and the last conflict with it
+    # and the middle one does not (the add-on look-ahead has to keep what the running stage claimed
+    # after it accepted the middle one); and two + two
+    qa, qb = [], []
+    small = idx[:28]
+    for a, b, c, d in itertools.product(small, repeat=4):
+        ka, kb, kc, kd = ks[a], ks[b], ks[c], ks[d]
+        if conflict(ka, kb) and not conflict(ka, kc) and conflict(ka, kd) and not conflict(kb, kc) and not conflict(kb, kd) and not conflict(kc, kd):
+            qa.append((a, b, c, d))
+        elif not conflict(ka, kb) and conflict(kb, kc) and not conflict(ka, kc) and not conflict(kc, kd) and conflict(ka, kd):
+            qb.append((a, b, c, d))
+    rnd.shuffle(qa)
+    rnd.shuffle(qb)
     if tier == "quick":
-        pairs = pc[:40] + pn[:48]
-        triples = triples[:48]
+        pairs = pc[:36] + pn[:40]
+        triples = triples[:40]
+        quads = qa[:8] + qb[:4]
     else:
         pairs = pc[:300] + pn[:300]
         triples = triples[:340]
-        allq = [q for q in itertools.product(idx, repeat=4)
-                if not conflict(ks[q[0]], ks[q[1]]) and conflict(ks[q[1]], ks[q[2]]) and not conflict(ks[q[2]], ks[q[3]])]
-        rnd.shuffle(allq)
-        quads = allq[:16]
+        quads = qa[:48] + qb[:24]
     return [("p%03d" % i, p) for i, p in enumerate(pairs)] + [("t%03d" % i, t) for i, t in enumerate(triples)] + \
            [("q%03d" % i, q) for i, q in enumerate(quads)]
 
